@@ -19,53 +19,84 @@ LEVEL = "proof"
 PROPS = ["PPLV.Props.C10"]
 PAIRS = {"0": "C_Polyhedron x Grid", "1": "Grid x NNC_Polyhedron", "2": "Rational_Box x Grid",
          "3": "BD_Shape<mpq_class> x C_Polyhedron", "4": "Octagonal_Shape<mpq_class> x Rational_Box",
-         "5": "Grid x BD_Shape<mpq_class>"}
+         "5": "Grid x BD_Shape<mpq_class>", "6": "Grid x Octagonal_Shape<mpq_class>", "7": "Grid x Rational_Box"}
+NPAIRSETS = 4
+REFINES = ("refine_con", "refine_cons", "refine_cg", "add_con", "add_cg")
+# base-level operators of Box known to cut away points of the exact result (C03, DESIGN section 9 #11)
+BOX_LOSSY = {"gen_pre": "generalized_affine_preimage", "gen_pre2": "generalized_affine_preimage",
+             "gen_img2": "generalized_affine_image(lhs,relsym,rhs)", "bnd_img": "bounded_affine_image",
+             "bnd_pre": "bounded_affine_preimage"}
+
+
+def chain_of(lines, idx, slot):
+    """operators applied to `slot` since its previous observation"""
+    ops = []
+    for l in reversed(lines[:idx]):
+        t = l.split()
+        if t[0] == "pobs" and t[1] == slot:
+            break
+        if t[0] in ("pnew", "pgrid") and t[1] == slot:
+            ops.append("create"); break
+        if t[0] == "pcopy" and t[1] == slot:
+            ops.append("copy"); break
+        if t[0] == "pop" and t[1] == slot:
+            ops.append(t[2])
+    return list(reversed(ops))
 
 
 def classify(lines, idx, what):
     head = lines[0].split()
     pair, pol = (head[4], head[5]) if len(head) > 5 else ("?", "?")
+    kinds = head[6:8] if len(head) > 7 else ["?", "?"]
     tags = ["pair_" + pair, "policy_" + pol]
     t = lines[idx].split()
     site = "?"
-    if what.startswith("diff:"):
-        site = "difference_assign"
-        # the component-wise difference (d1 \\ y1, d2 \\ y2) is not an over-approximation of the difference of
-        # the intersections
-        tags.append("componentwise_difference_loses_points")
+    if what.startswith("transformer:"):
+        chain = chain_of(lines, idx, t[1])
+        real = [o for o in chain if o not in REFINES] or chain
+        m = re.search(r"\(component (\d)\)", what)
+        culprit = kinds[int(m.group(1)) - 1] if m else "?"
+        tags += ["chain_" + o for o in sorted(set(chain))] + ["culprit_" + culprit]
+        site = "transformer:" + (real[-1] if real else "?")
+        if "diff" in chain:
+            # the component-wise difference (d1 \\ y1, d2 \\ y2) is not an over-approximation of the difference of
+            # the intersections
+            site = "difference_assign"
+            tags.append("componentwise_difference_loses_points")
+        elif culprit == "B":
+            lossy = [o for o in real if o in BOX_LOSSY]
+            if lossy and all(o in BOX_LOSSY or o in ("closure", "unconstrain") for o in real):
+                site = "transformer:Box::" + BOX_LOSSY[lossy[-1]]
+                tags.append("box_component_" + lossy[-1] + "_cuts_image_points")
     elif what.startswith("reduce:"):
         site = "reduce:" + pol
     elif what.startswith("smash_propagation"):
         site = "reduce:" + pol
         tags.append("emptiness_not_propagated")
-    elif t[0] == "pobs":
-        m = re.match(r"(\w+):", what)
-        site = "op:" + (m.group(1) if m else "?")
     elif t[0] == "pq":
         site = "query:" + t[2]
     elif t[0] == "crash":
-        prev = [l for l in lines[:idx] if l.split()[0] in ("pop", "pimp", "pq", "pnew", "pexp")]
-        site = "crash:" + (" ".join(prev[-1].split()[:3:2]) if prev else "?")
+        prev = [l for l in lines[:idx] if l.split()[0] in ("pop", "pq", "pnew", "pgrid", "pexp")]
+        last = prev[-1].split() if prev else ["?", "?", "?"]
+        site = "crash:" + (last[2] if last[0] in ("pop", "pq") else last[0])
+        if "B" in kinds:
+            tags.append("box_component")
+            if last[0] == "pop" and last[2] == "bnd_pre":
+                tags.append("box_bounded_affine_preimage_sigfpe")
     elif t[0] == "exc":
-        prev = [l for l in lines[:idx] if l.split()[0] in ("pop", "pimp")]
+        prev = [l for l in lines[:idx] if l.split()[0] == "pop"]
         site = "exc:" + (prev[-1].split()[2] if prev else "?")
     elif t[0] == "notok":
         site = "OK()"
         # which operator left the `reduced' flag set on a pair that is no longer reduced?
-        lastimp = {}
+        last = None
         for l in lines[:idx]:
             u = l.split()
-            if u[0] == "pimp":
-                lastimp[u[1]] = u[2]
-                if len(u) > 3 and u[2] != "unconstrain":
-                    pass
-            elif u[0] in ("pop", "pnew"):
-                lastimp.pop(u[1], None)
-            elif u[0] == "pcopy":
-                if u[2] in lastimp: lastimp[u[1]] = lastimp[u[2]]
-                else: lastimp.pop(u[1], None)
-        if t[1] in lastimp:
-            tags.append("reduced_flag_stale_after_" + lastimp[t[1]])
+            if u[0] == "pop" and u[1] == t[1]:
+                last = u[2]
+        if last in ("unconstrain", "ub", "time_elapse", "widen", "remove_dims", "remove_higher", "map_dims", "expand", "fold",
+                    "closure", "add_dims_embed", "add_dims_project"):
+            tags.append("reduced_flag_stale_after_" + last)
     return site, tags, pair, pol
 
 
@@ -74,17 +105,17 @@ def run(ctx):
     broken = ctx.prove(PROPS)
     quick = ctx.tier == "quick"
     drv = ctx.ensure_pplv("pplv_ps")
-    with cf.ThreadPoolExecutor(3) as ex:
+    with cf.ThreadPoolExecutor(NPAIRSETS) as ex:
         hs = list(ex.map(lambda k: ctx.compile_harness("c10_product.cc", out_name="c10_product_p%d" % k,
-                                                       flags=("-DPAIRSET=%d" % k,)), range(3)))
-    n_hist, length = (500, 10) if quick else (12000, 16)
+                                                       flags=("-DPAIRSET=%d" % k,)), range(NPAIRSETS)))
+    n_hist, length = (320, 10) if quick else (10000, 16)
     wd = ctx.workdir()
     stats, opc, qc, pairc, polc, okfalse = (collections.Counter() for _ in range(6))
     distinct, nontrivial, samples, total = set(), 0, [], 0
     summaries = []
     for k, h in enumerate(hs):
         jpath = os.path.join(wd, "journal%d.txt" % k)
-        cmd = [h, "--seed", str(ctx.seed), "--first", "0", "--last", str(n_hist), "--len", str(length), "--batch", "20"]
+        cmd = [h, "--seed", str(ctx.seed), "--first", "0", "--last", str(n_hist), "--len", str(length), "--batch", "4"]
         rc, _, err = ctx.run(cmd, stdout_path=jpath, timeout=3000)
         if rc != 0:
             ctx.fatal("harness failed rc=%s %s" % (rc, (err or "")[-500:]))
@@ -123,6 +154,8 @@ def run(ctx):
                 stats[v[0]] += 1
                 if v[0] == "ok" and v[1].startswith("sampled"):
                     stats["ok_by_sampling"] += 1
+                if v[0] == "ok" and v[1].startswith("exhaustive"):
+                    stats["ok_by_exhaustive_enumeration"] += 1
                 if v[0] == "skip":
                     stats["skip:" + v[1].split()[0]] += 1
                 elif v[0] == "MISMATCH":
@@ -153,10 +186,11 @@ def run(ctx):
         ctx.violation("proof obligation broken: " + b, {"obligation": b}, found_input=False)
     ctx.cov.update({
         "evaluations": total, "distinct_nontrivial": nontrivial,
-        "rule": "seeded histories (len %d, dim<=3) over pools of 3 products, 6 component pairs x 5 reduction policies; distinct by hash of "
+        "rule": "seeded histories (len %d, dim<=3) over pools of 3 products, 8 component pairs x 5 reduction policies; distinct by hash of "
                 "the journal text; non-trivial = some observation where reduce() really changed a component of a non-empty product" % length,
         "samples": samples, "traces_validated_against_impl": total,
         "observations_decided": stats["ok"], "of_which_by_lattice_point_sampling": stats["ok_by_sampling"],
+        "of_which_by_exhaustive_lattice_enumeration": stats["ok_by_exhaustive_enumeration"],
         "observations_mismatch": stats["MISMATCH"],
         "mismatch_not_reported_individually": stats["mismatch_not_reported_individually"],
         "observations_skipped": {k[5:]: v for k, v in stats.items() if k.startswith("skip:")},
